@@ -1210,9 +1210,23 @@ func (s *ObjectStorage) ObjectPacks() ([]plumbing.Hash, error) {
 // lives only in the now-deleted pack. If the MRU hint pointed at the
 // deleted slot, invalidate it.
 func (s *ObjectStorage) DeleteOldObjectPackAndIndex(h plumbing.Hash, t time.Time) error {
-	if err := s.dir.DeleteOldObjectPackAndIndex(h, t); err != nil {
-		return err
+	derr := s.dir.DeleteOldObjectPackAndIndex(h, t)
+
+	// Whether the pack is still routed to depends on whether its .pack file is
+	// still there, not on how the call ended: a pack that was too new to
+	// delete (nil) or whose removal failed must keep serving its objects, and
+	// one that is gone although a sibling file could not be removed (error)
+	// must not be consulted any more.
+	packs, lerr := s.dir.ObjectPacks()
+	if lerr != nil {
+		return errors.Join(derr, lerr)
 	}
+	for _, p := range packs {
+		if p == h {
+			return derr
+		}
+	}
+
 	// Objects handed out of a pack read their content lazily from that pack;
 	// cached ones that belong to the pack just deleted would fail on their
 	// next Reader() although the object now lives in another pack.
@@ -1224,7 +1238,7 @@ func (s *ObjectStorage) DeleteOldObjectPackAndIndex(h plumbing.Hash, t time.Time
 
 	idx, ok := s.index[h]
 	if !ok {
-		return nil
+		return derr
 	}
 	delete(s.index, h)
 
@@ -1250,5 +1264,5 @@ func (s *ObjectStorage) DeleteOldObjectPackAndIndex(h plumbing.Hash, t time.Time
 	}
 
 	_ = idx.Close()
-	return nil
+	return derr
 }
